@@ -317,7 +317,9 @@ class _RawConfigParser(configparser.RawConfigParser):
     self._sections = collections.OrderedDict()
 
   def optionxform(self, option):
-    option = option.strip()
+    # Remove whitespace so that f(x, y) and f(x,y) or A - B and A-B are the same option
+    # for the purposes of look-up and duplicate detection.
+    option = option.strip().replace(' ', '').replace('\t', '')
     return option
 
 class ConfigParser(object):
